@@ -62,8 +62,9 @@ structure ModLocality where
 def nodeWriteAllow : List String := []
 
 /-- FURB120 compares `len(errors)` before and after its own inner loop: a delta, insensitive to what
-    other checks appended earlier. -/
-def errorsReadAllow : List String := ["refurb.checks.function.use_implicit_default"]
+    other checks appended earlier.  The allowance is for THAT use in THAT module only (module, source text of the use):
+    any other look at the shared list (its truthiness, its tail, ...) is what lets one check's output depend on another's. -/
+def errorsReadAllow : List (String × String) := [("refurb.checks.function.use_implicit_default", "len(errors)")]
 
 /-- constant lookup tables that are shared but never mutated by either module (no store/method call on them) -/
 def mutableImportAllow : List (String × String) := [
